@@ -71,11 +71,12 @@ def tag(slot):
     return TAGS[(slot + 3) % len(TAGS)]
 
 
-def ref_velocity(frames, nu):
+def ref_velocity(frames, nu, tg=None):
     """Reference: linear interpolation of the frame tags at real step nu."""
+    tg = tg or {s: tag(s) for s in frames}
     for a, b in zip(frames, frames[1:]):
         if a <= nu <= b:
-            return tag(a) + (nu - a) / (b - a) * (tag(b) - tag(a))
+            return tg[a] + (nu - a) / (b - a) * (tg[b] - tg[a])
     raise util.HarnessError((frames, nu))
 
 
@@ -87,7 +88,7 @@ W = world.World(imax=6, jmax=5, N=2, h=20.0, dx=1000.0)
 PX, PY, PZ = 2.5, 2.0, 5.0  # on a u-node; v-node not needed (v = -2*tag uniform)
 
 
-def run_layout(nsteps, frames, sizes, rev, scalar, units="seconds", late=0):
+def run_layout(nsteps, frames, sizes, rev, scalar, units="seconds", late=0, flat=False):
     """Returns (sig, msg) or None."""
     from ladim.ROMS import Forcing, Grid
     from ladim.state import State
@@ -95,6 +96,9 @@ def run_layout(nsteps, frames, sizes, rev, scalar, units="seconds", late=0):
 
     d = util.scratch("c03")
     sgn = -1 if rev else 1
+    tg = {s: tag(s) for s in frames}
+    if flat:  # the first two frames (in simulation order) carry the same field, the later ones differ
+        tg[frames[1]] = tg[frames[0]]
     cal = sorted(frames, key=lambda s: sgn * s)  # calendar order
     files, k = [], 0
     order = cal if not rev else cal  # files hold consecutive calendar frames
@@ -104,7 +108,7 @@ def run_layout(nsteps, frames, sizes, rev, scalar, units="seconds", late=0):
         k += size
         fl = []
         for s in chunk:
-            f = W.uniform(tag(s), -2 * tag(s))
+            f = W.uniform(tg[s], -2 * tg[s])
             if scalar:
                 f["temp"] = np.full((W.N, W.jmax, W.imax), 100.0 + s)
             fl.append(dict(t=S0 + sgn * s * DT, **f))
@@ -128,10 +132,12 @@ def run_layout(nsteps, frames, sizes, rev, scalar, units="seconds", late=0):
             force.update()
             if n < late:
                 continue
-            for frac in FRACS:
+            # the order of the requests matters to anything cached between them: the first non-zero fraction of a step
+            # repeats the last one of the previous step (the access pattern of RK2 / of a probe)
+            for frac in ([0.5, 0.0, 1.0, 0.5] if not scalar else [1.0, 0.0, 0.5, 1.0]):
                 u, v = force.velocity(st.X, st.Y, st.Z, fractional_step=frac)
                 got_u, got_v = float(u[0]), float(v[0])
-                exp = ref_velocity(frames, n + frac)
+                exp = ref_velocity(frames, n + frac, tg)
                 if frac == 0.0:
                     vu = float(force.variables["u"][0])
                     if abs(vu - got_u) > 1e-12:
@@ -141,7 +147,7 @@ def run_layout(nsteps, frames, sizes, rev, scalar, units="seconds", late=0):
                 s = sign if sign is not None else 1.0
                 if abs(got_u - s * exp) > 1e-9 or abs(got_v - s * (-2 * exp)) > 1e-9:
                     what = "frame-step" if n in frames else "between-frames"
-                    return (f"velocity:{what}:frac={frac}", f"step {n} frac {frac}: u={got_u} v={got_v} expected u={s * exp} (frames {frames}, tags {[tag(x) for x in frames]})")
+                    return (f"velocity:{what}:frac={frac}", f"step {n} frac {frac}: u={got_u} v={got_v} expected u={s * exp} (frames {frames}, tags {[tg[x] for x in frames]})")
             if scalar:
                 t = float(force.variables["temp"][0])
                 e = ref_scalar(frames, n)
@@ -178,14 +184,17 @@ def run_case(case):
         if nsteps >= 2:  # the same layouts with an empty state during the first steps (first release at step 1 or 2)
             combos += [(list(comps[0]), rev, True, late) for rev in (False, True) for late in range(1, min(nsteps, 3))]
             combos += [(list(comps[-1]), False, False, nsteps - 1)]
+        if len(frames) >= 3:  # the first two frames identical, the field changes only later
+            combos += [(list(comps[0]), rev, False, 0, True) for rev in (False, True)]
     for combo in combos:
         sz, rev, sc = combo[:3]
         late = combo[3] if len(combo) > 3 else 0
+        flat = combo[4] if len(combo) > 4 else False
         sz = tuple(sz)
         units = "seconds"
         if (len(frames) + nsteps) % 5 == 0 and sc:
             units = "hours" if rev else "days"  # a slice with other CF time units
-        res = run_layout(nsteps, frames, sz, rev, sc, units, late)
+        res = run_layout(nsteps, frames, sz, rev, sc, units, late, flat)
         n += 1
         handover = any(0 < s < nsteps for s in frames)
         interp = any(s not in frames for s in range(nsteps))
@@ -196,7 +205,7 @@ def run_case(case):
             sig = res[0]
             if sum(1 for v in viols if v["sig"] == sig) < 1:
                 viols.append(util.viol(sig, f"Nsteps={nsteps} frames@steps={frames} files={sz} rev={rev} scalar={sc} first-release-at-step={late} [{classify(frames, sz, rev, nsteps)}]: {res[1]}",
-                                       dict(nsteps=nsteps, frames=frames, only=[list(sz), rev, sc, late])))
+                                       dict(nsteps=nsteps, frames=frames, only=[list(sz), rev, sc, late, flat])))
     util.cleanup_scratch(keep_root=True)
     return util.result(evals=n, nontrivial=nt, viol=viols, outcomes=[list(o) for o in outcomes], states=n * nsteps, transitions=n * nsteps * 3,
                        sample=dict(nsteps=nsteps, frame_steps=frames, file_compositions=len(comps), example_files=list(comps[len(comps) // 2])))
